@@ -354,7 +354,8 @@ class Call:
         if len(set(self.data_dtypes)) > 1:
             out.append("mixed_data_dtypes")
             kinds = ["integer" if np.dtype(d).kind in "iu" else d for d in self.data_dtypes]
-            out.append("mixed_data_dtypes:%s_then_%s" % (kinds[0], next(k for k in kinds[1:] if k != kinds[0])))
+            other = [k for k in kinds[1:] if k != kinds[0]]
+            out.append("mixed_data_dtypes:%s_then_%s" % (kinds[0], other[0] if other else "integer_of_another_width"))
         if any(e > EPS for e in self.data_eps):
             out.append("tolerance_from_float32_operand")
         if self.weights is not None:
@@ -367,10 +368,22 @@ class Call:
             value = getattr(est, name, None)
             if value is not None:
                 out.append("spelling:%s:%s" % (name, describe(value)))
+                text = describe(value)
+                if name == "spacing" and np.ndim(value) == 0:
+                    group = "scalar_as_" + ("python_int" if text == "int" else "python_float" if text == "float" else
+                                            "0d_array" if text.startswith("ndarray") else "numpy_integer" if "int" in text else "numpy_floating")
+                else:
+                    group = "as_" + ("ndarray" if text.startswith("ndarray") else text.split("_of_")[0])
+                    if "np." in text:
+                        out.append("spelling_group:%s:elements_numpy_scalars" % name)
+                    if name != "shape" and "int" in text:
+                        out.append("spelling_group:%s:elements_integers" % name)
+                out.append("spelling_group:%s:%s" % (name, group))
         for name in ("center_coordinates", "drop_coords", "uncertainty"):
             value = getattr(est, name, None)
             if value is not None and not isinstance(value, bool):
                 out.append("spelling:flag:%s:%s=%s" % (name, describe(value), bool(value)))
+                out.append("spelling_group:flag_as_%s=%s" % ("numpy_bool" if isinstance(value, np.bool_) else "int", bool(value)))
         if len(self.coords) > 2 and any(not np.any(c) for c in self.coords[2:]):
             out.append("falsy:extra_coordinate_exactly_0_everywhere")
         if any(not np.any(d) for d in self.data):
@@ -770,6 +783,8 @@ def describe(value):
         return "None"
     if isinstance(value, (bool, np.bool_)):
         return "bool" if isinstance(value, bool) else "np.bool_"
+    if isinstance(value, np.generic):  # before int/float: np.float64 is a subclass of float
+        return "np." + type(value).__name__
     if isinstance(value, int):
         return "int"
     if isinstance(value, float):
@@ -790,7 +805,7 @@ def describe(value):
 
 def spell_scalar(rng, x):
     x = float(x)
-    options = ["float", "np.float64", "ndarray0d"]
+    options = ["float", "np.float64", "np.float64", "ndarray0d"]
     if x.is_integer():
         options += ["int", "int", "np.int64", "np.int32", "ndarray0d_int"]
     kind = str(rng.choice(options))
@@ -853,9 +868,9 @@ def integer_friendly(rng):
         kwargs["region"] = [float(v) for v in region]
         width, height = region[1] - region[0], region[3] - region[2]
     pick = rng.random()
-    if pick < 0.3:
+    if pick < 0.27:
         kwargs["shape"] = (int(rng.integers(1, 7)), int(rng.integers(1, 7)))
-    elif pick < 0.6:
+    elif pick < 0.67:
         kwargs["spacing"] = float(max(1.0, np.round(min(width, height) / rng.uniform(0.8, 6.0))))
     else:
         kwargs["spacing"] = (float(max(1.0, np.round(height / rng.uniform(0.8, 6.5)))), float(max(1.0, np.round(width / rng.uniform(0.8, 6.5)))))
